@@ -17,6 +17,14 @@
 (*             from the same configuration,                                *)
 (*           reps = distinct replica lists GetN(0..rf-1) of the tenant's   *)
 (*             series (asked before and after eviction)                    *)
+(*   Concurrent scenarios (in.kind = "conc") use the same shape: shards =  *)
+(*   <<computed sequentially on a fresh instance, read (cached path) by    *)
+(*   the tenant's goroutine in round 1, ..., round R>> where in every      *)
+(*   round one goroutine per tenant, all released together, asks GetN on a *)
+(*   fresh cold instance (sub-ring cache of 1 entry or large); reps = the  *)
+(*   replica lists those concurrent GetN calls returned.  So "concurrent   *)
+(*   result = sequential result = the same in every repetition" is the     *)
+(*   clause same-set-of-nodes-every-time.                                  *)
 (* Clauses (Hashring!C21Clauses): "assigned the same set of nodes every    *)
 (* time (cached or not)", "the set contains the configured number of nodes *)
 (* per availability zone (or the configured total without zone             *)
